@@ -23,13 +23,31 @@ RULE = ("Detector: Hypothesis draws bits (1..32; additionally EVERY bits value 1
         "arrays with unique values; oracle: colour of site (y, x) from index parity computed by the harness; exact "
         "equality (data movement).  White balance: gains, safe mode with scalar / per-channel saturation.  Non-trivial = "
         "(detector) some pixel at or above the ADC ceiling or a non-uniformity map or frames > 1 or bits not in {8,12,14,16}; "
-        "(binning) ndim != 2 or unequal factors; (Bayer) non-square or cfa == bggr or non-float dtype; (WB) safe mode or bggr.")
+        "(binning) ndim != 2 or unequal factors; (Bayer) non-square or cfa == bggr or non-float dtype; (WB) safe mode or bggr.  "
+        "Hardening pass: every array handed to the library additionally has a drawn memory layout {C, Fortran, transpose view, "
+        "strided view, negative strides} (aerial image, prnu / dcnu maps, arrays to bin / tile, mosaics, colour planes, output "
+        "buffers, white-balance targets) and is compared bit for bit with a copy taken before the call (except the documented "
+        "in-place targets of wb_prescale / wb_postscale); aerial images are float64 / float32 / int64 / uint16 (oracle from the "
+        "typed image; float32 arithmetic allowed 2^-21 relative); detector parameters are Python floats / numpy float64 scalars "
+        "/ 0-d arrays / Python ints, bits and frames Python int or numpy int64, frames also omitted / by keyword; conversion gains "
+        "are also drawn from [0.05, 40]; a detector may have a history inside the process (another instance with other bits / "
+        "gain / image shape / dtype exposed first, or the very object built with other parameters, exposed, then re-configured "
+        "through its public attributes); the first exposure is kept, a brighter one and the first one again are exposed, the "
+        "kept array must not change and the repeat must equal it.  Binning: float32 data, factors as list / tuple / ndarray / "
+        "numpy integer, factors up to 16 for 1-D / 2-D, an unrelated bindown / tile call of another rank and dtype first, first "
+        "result kept across the later calls.  Bayer: uint8 / uint32 / int64 mosaics, sample values at the bottom, just above "
+        "2^24 and at the very top of the type's range (floats: 1e-30 and 1e30 / 1e300 scales), a mosaic of the same shape and "
+        "another dtype demosaicked first, two more mosaics of the same shape demosaicked after the kept result.  White balance: "
+        "gains in every scalar form, per-channel saturation as list / tuple / ndarray.")
 ASSUMPTIONS = ["numpy elementwise arithmetic, np.repeat and float->unsigned casts of in-range values are correct",
                "with a non-uniform prnu map the dark current is zero and vice versa (the property does not say whether "
                "PRNU applies to dark signal; both readings then agree)",
                "aerial images are 2-D (expose documents 'output shape is same as input shape' and indexes two axes)",
                "the real-RNG clause keeps the Poisson mean below 1e15 (numpy's generator rejects lam > 9.2e18)",
-               "'safe' white balance is only asserted to divide all gains by one common ratio >= 1"]
+               "'safe' white balance is only asserted to divide all gains by one common ratio >= 1",
+               "integer-typed aerial images are exposed with a floating point exposure time (the documented type): integer image x "
+               "integer time is evaluated by NumPy in the image's integer type and may wrap; bits is a Python int or numpy int64 "
+               "(2 ** bits overflows for narrower numpy integer scalars)"]
 
 
 # ---- deterministic RNG through the backend shim (DESIGN 2.4) -------------------------------------
@@ -66,7 +84,61 @@ def rng_proxy(random):
         shim._srcmodule = old
 
 
+# ---- dtype / memory layout / scalar form of the arguments (hardening pass) ---------------------------
+LAYOUTS = ['C', 'C', 'F', 'T-view', 'strided', 'negstride']
+FORMS = ['float', 'float', 'np64', '0d', 'int']
+
+
+def relayout(a, how):
+    """same values, other strides"""
+    a = np.asarray(a)
+    if how == 'negstride' and a.ndim:
+        rev = (slice(None, None, -1),) * a.ndim
+        return np.ascontiguousarray(a[rev])[rev]
+    return U.relayout(a, 'C' if how == 'negstride' else how)
+
+
+def scalar_form(v, form):
+    """a real parameter as Python float | numpy float64 scalar | 0-d array | Python int (only when integer valued)"""
+    if form == 'np64':
+        return np.float64(v)
+    if form == '0d':
+        return np.array(float(v))
+    if form == 'int' and float(v) == int(v):
+        return int(v)
+    return float(v)
+
+
+def snapshot(*objs):
+    return [None if o is None else (np.array(o, copy=True), np.asarray(o).dtype, np.shape(o)) for o in objs]
+
+
+def require_unchanged(ctx, who, names, objs, snaps):
+    """every array-like argument still holds, bit for bit, what it held before the call"""
+    for name, o, sn in zip(names, objs, snaps):
+        if sn is None:
+            continue
+        keep, dt, shp = sn
+        now = np.asarray(o)
+        if now.dtype != dt or now.shape != tuple(shp) or np.ascontiguousarray(now).tobytes() != np.ascontiguousarray(keep).tobytes():
+            if now.shape == tuple(shp) and now.dtype == dt and now.size:
+                diff = np.argwhere(now != keep)
+                i = tuple(int(k) for k in diff[0]) if len(diff) else ()
+                detail = 'first difference at %s: was %r, now %r; %d of %d samples changed' % (i, keep[i], now[i], len(diff), now.size)
+            else:
+                detail = 'was %s %s, now %s %s' % (dt, tuple(shp), now.dtype, now.shape)
+            ctx.fail(who + ':argument-modified', 'the %s handed to %s was changed by the call: %s' % (name, who, detail))
+
+
+def require_kept(ctx, who, result, kept, what):
+    """an array returned earlier still holds what it held when it was returned"""
+    r = np.asarray(result)
+    if r.shape != kept.shape or r.dtype != kept.dtype or not np.array_equal(r, kept, equal_nan=r.dtype.kind in 'fc'):
+        ctx.fail(who + ':result-overwritten', 'the %s %s array returned by %s changed while %s' % (kept.dtype, kept.shape, who, what))
+
+
 # ---- detector ------------------------------------------------------------------------------------
+IMG_DTYPES = ['f8', 'f8', 'f8', 'f4', 'f4', 'i8', 'u2']
 LEVELS = ['zero', 'tiny', 'mid', 'mid', 'mid2', 'max', 'between', 'cap', 'over', 'far', 'huge']
 CONTEMPORARY = (8, 12, 14, 16)
 
@@ -89,9 +161,10 @@ def build_detector_case(case, noisy=False):
     idx = r.integers(0, len(LEVELS), (h, w))
     u = r.uniform(0, 1, (h, w))
     el = np.empty((h, w))
-    for i in range(h):
-        for j in range(w):
-            el[i, j] = _level_value(LEVELS[idx[i, j]], fs_e, bits, gain, fwc, u[i, j])
+    for k, name in enumerate(LEVELS):      # elementwise: the same arithmetic per pixel for every image size
+        sel = idx == k
+        if sel.any():
+            el[sel] = np.broadcast_to(_level_value(name, fs_e, bits, gain, fwc, u), (h, w))[sel]
     if noisy:
         el = np.minimum(el, 1e15)
     prnu = dcnu = None
@@ -106,6 +179,10 @@ def build_detector_case(case, noisy=False):
     # the property does not say whether PRNU scales dark signal: never both non-trivial
     dark_e = 0.0 if case['prnu'] == 'map' else case['dark_rel'] * fs_e      # electrons accumulated over the exposure
     img = el / t                                   # e-/s
+    idt = case.get('img_dtype', 'f8')
+    if idt != 'f8':
+        img = typed_image(img, idt)
+        el = img.astype(np.float64) * t            # the electrons this image stands for (integer / float32 images are exact inputs)
     lut = None
     if case['lut'] != 'none' and bits <= 10:
         n = 2 ** bits
@@ -118,6 +195,14 @@ def build_detector_case(case, noisy=False):
                 fs_e=fs_e)
 
 
+def typed_image(img, idt):
+    """the aerial image (e-/s) in another container: float32, or integer counts (rounded, clipped to the type's range)"""
+    if idt == 'f4':
+        return img.astype(np.float32)
+    dt = {'i8': np.int64, 'u2': np.uint16, 'u1': np.uint8, 'i4': np.int32}[idt]
+    return np.rint(np.clip(img, 0, min(float(np.iinfo(dt).max), 2.0 ** 62))).astype(dt)
+
+
 def _oracle_dn(d, case, el=None):
     """bounds (lo, hi) of floor(clip(min(signal, fwc)/gain, 0, 2^bits-1)) allowing 1e-12 relative rounding of the signal"""
     bits, gain = case['bits'], case['gain']
@@ -125,7 +210,10 @@ def _oracle_dn(d, case, el=None):
     p = d['prnu'] if d['prnu'] is not None else 1.0
     dk = d['dark_e'] * (d['dcnu'] if d['dcnu'] is not None else 1.0)
     sig = el * p + dk + d['bias']
-    s = 1e-12 * (np.abs(el * p) + np.abs(dk) + abs(d['bias']))     # rounding of the sum (cancellation with a negative bias)
+    # rounding of the sum (cancellation with a negative bias); a float32 image is multiplied by the exposure time and added to
+    # the dark signal in float32 (two roundings of 2^-24 relative, 2^-21 allowed)
+    rel = 1e-12 + (2.0 ** -21 if case.get('img_dtype', 'f8') == 'f4' else 0.0)
+    s = rel * (np.abs(el * p) + np.abs(dk) + abs(d['bias']))
     v = np.minimum(sig, d['fwc']) / gain
     v_lo = np.minimum(sig - s, d['fwc']) / gain
     v_hi = np.minimum(sig + s, d['fwc']) / gain
@@ -137,14 +225,59 @@ def _oracle_dn(d, case, el=None):
     return lo, hi, v
 
 
-def _mk_detector(case, d, read_noise=0.0):
+def _det_params(case, d, read_noise):
+    """constructor arguments in their drawn scalar form / memory layout"""
+    form = case.get('form', 'float')
+    ml = case.get('map_layout', 'C')
+    return dict(dark_current=scalar_form(d['dark_rate'], form), read_noise=scalar_form(read_noise, form), bias=scalar_form(d['bias'], form),
+                fwc=scalar_form(d['fwc'], form), conversion_gain=scalar_form(case['gain'], form),
+                bits=np.int64(case['bits']) if case.get('bits_form', 'int') == 'np64' else case['bits'],
+                # documented type float; an integer image times an integer exposure time would be evaluated by NumPy in the image's
+                # own integer type (uint16 * 30 wraps) - not a case the model is documented for
+                exposure_time=scalar_form(case['t'], 'float' if form == 'int' and case.get('img_dtype', 'f8') not in ('f8', 'f4') else form),
+                prnu=None if d['prnu'] is None else relayout(d['prnu'], ml), dcnu=None if d['dcnu'] is None else relayout(d['dcnu'], ml),
+                lut=d['lut'])
+
+
+def _mk_detector(case, d, read_noise=0.0, ctx=None):
+    """the detector under test; optionally with a history inside the process: another instance (other bit depth, gain, image
+    shape and dtype) exposed first, or this very object built with other parameters, exposed, and then re-configured through
+    its public attributes"""
     from prysm.detector import Detector
-    return Detector(dark_current=d['dark_rate'], read_noise=read_noise, bias=d['bias'], fwc=d['fwc'], conversion_gain=case['gain'],
-                    bits=case['bits'], exposure_time=case['t'], prnu=d['prnu'], dcnu=d['dcnu'], lut=d['lut'])
+    kw = _det_params(case, d, read_noise)
+    hist = case.get('history', 'none')
+
+    def make():
+        if case.get('ctor', 'kw') == 'positional':
+            return Detector(*[kw[k] for k in ('dark_current', 'read_noise', 'bias', 'fwc', 'conversion_gain', 'bits', 'exposure_time',
+                                              'prnu', 'dcnu', 'lut')])
+        return Detector(**kw)
+    if hist == 'none' or ctx is None:
+        return make(), kw
+    h, w = case['shape']
+    r = U.rng_of(case['seed'], 21)
+    other_bits = int(r.choice([b for b in (1, 7, 8, 10, 16, 17, 32) if b != case['bits']]))
+    other = Detector(dark_current=3.0, read_noise=0.0, bias=5.0, fwc=1e4, conversion_gain=float(r.choice([0.5, 1.3, 7.9])), bits=other_bits,
+                     exposure_time=0.5, prnu=None, dcnu=None, lut=None)
+    shape0 = (h, w) if hist == 'same-shape-before' else (w + 1, h + 2)
+    first = r.uniform(0, 3e4, shape0).astype(np.float32 if r.uniform() < 0.5 else np.float64)
+    with rng_proxy(_NoNoise()):
+        ctx.call(other.expose, first, int(r.integers(1, 3)))
+    if hist in ('other-instance', 'same-shape-before'):
+        return make(), kw
+    for k, v in kw.items():          # hist == 'reassigned'
+        setattr(other, k, v)
+    return other, kw
 
 
 def _expose(ctx, det, img, frames, case):
+    if case.get('frames_form', 'int') == 'np64':
+        frames = np.int64(frames)
     try:
+        if case.get('frames_form', 'int') == 'default' and frames == 1:
+            return ctx.call(det.expose, img)
+        if case.get('frames_form', 'int') == 'kw':
+            return ctx.call(det.expose, aerial_img=img, frames=frames)
         return ctx.call(det.expose, img, frames)
     except Violation as v:
         if v.bucket.startswith('raise:') and (case['prnu'] != 'none' or case['dcnu'] != 'none'):
@@ -175,6 +308,10 @@ def _dn_bucket(case, dn, v, bad):
 def _det_labels(case, ctx, d, v):
     bits = case['bits']
     sat = bool(np.any(v >= 2.0 ** bits))
+    if case['shape'][0] * case['shape'][1] > 64:
+        ctx.label('large frame' + (' (> 2^16 pixels)' if case['shape'][0] * case['shape'][1] > 65536 else ''))
+    ctx.label('img:' + case.get('img_dtype', 'f8'), 'layout:' + case.get('layout', 'C'), 'form:' + case.get('form', 'float'),
+              'history:' + case.get('history', 'none'), 'gain:' + ('listed' if case['gain'] in GAINS else 'drawn'))
     ctx.label('bits<=8' if bits <= 8 else 'bits<=16' if bits <= 16 else 'bits<=32', 'frames:%d' % case['frames'],
               'prnu:' + case['prnu'], 'dcnu:' + case['dcnu'], 'lut:' + ('none' if d['lut'] is None else case['lut']),
               'saturating' if sat else 'unsaturated', 'fwc-limited' if d['fwc'] < d['fs_e'] else 'adc-limited',
@@ -182,10 +319,21 @@ def _det_labels(case, ctx, d, v):
     ctx.nt(sat or case['prnu'] == 'map' or case['dcnu'] == 'map' or case['frames'] > 1 or bits not in CONTEMPORARY)
 
 
+GAINS = [1.0, 0.5, 0.37, 2.7, 16.0, 0.1]
+
+
 def strat_detector(tier):
     ax = st.integers(1, 8)
+    # mostly small frames; now and then a large one (more than 2^16 pixels, a long single row)
+    shape = st.one_of(*([st.tuples(ax, ax).map(list)] * 19 + [st.sampled_from([[64, 48], [1, 300], [257, 256]])]))
     return st.fixed_dictionaries({
-        'shape': st.tuples(ax, ax).map(list), 'bits': st.integers(1, 32), 'gain': st.sampled_from([1.0, 0.5, 0.37, 2.7, 16.0, 0.1]),
+        'ctor': st.sampled_from(['kw', 'kw', 'positional']),
+        'img_dtype': st.sampled_from(IMG_DTYPES), 'layout': st.sampled_from(LAYOUTS), 'map_layout': st.sampled_from(LAYOUTS),
+        'form': st.sampled_from(FORMS), 'bits_form': st.sampled_from(['int', 'int', 'np64']),
+        'frames_form': st.sampled_from(['int', 'int', 'np64', 'default', 'kw']),
+        'history': st.sampled_from(['none', 'none', 'other-instance', 'same-shape-before', 'reassigned']),
+        'shape': shape, 'bits': st.integers(1, 32),
+        'gain': st.one_of(st.sampled_from(GAINS), st.sampled_from(GAINS), U.nice_float(0.05, 40.0)),
         't': st.sampled_from([1.0, 0.01, 30.0, 0.7]), 'fwc_rel': st.sampled_from([0.3, 0.9, 1.0, 1.5, 100.0, 1e6]),
         'bias_rel': st.sampled_from([0.0, 0.0, 0.01, 0.3, -0.05]), 'dark_rel': st.sampled_from([0.0, 0.0, 1e-3, 0.2]),
         'frames': st.sampled_from([1, 1, 2, 3]), 'prnu': st.sampled_from(['none', 'none', 'ones', 'map']),
@@ -199,14 +347,31 @@ def check_noise_free(case, ctx):
     lo, hi, v = _oracle_dn(d, case)
     _det_labels(case, ctx, d, v)
     frames, bits = case['frames'], case['bits']
-    det = _mk_detector(case, d)
+    det, kw = _mk_detector(case, d, ctx=ctx)
     # brighter image: some pixels unchanged, some pushed across saturation
     r = U.rng_of(case['seed'], 17)
     bump = np.where(r.uniform(0, 1, d['el'].shape) < 0.4, 0.0, d['fs_e'] * r.choice([1e-3, 0.3, 1.0, 1e4], d['el'].shape))
     el2 = d['el'] + bump
+    idt, lay = case.get('img_dtype', 'f8'), case.get('layout', 'C')
+    img1 = relayout(d['img'], lay)
+    img2 = el2 / case['t']
+    if idt != 'f8':
+        img2 = typed_image(img2, idt)
+        el2 = img2.astype(np.float64) * case['t']
+    img2 = relayout(img2, lay)
+    names = ['aerial image', 'brighter aerial image', 'prnu map', 'dcnu map', 'lut', 'bias', 'fwc', 'conversion_gain']
+    args = [img1, img2, kw['prnu'], kw['dcnu'], kw['lut'], kw['bias'], kw['fwc'], kw['conversion_gain']]
+    snaps = snapshot(*args)
     with rng_proxy(_NoNoise()):
-        out = _expose(ctx, det, d['img'].copy(), frames, case)
-        out2 = _expose(ctx, det, el2 / case['t'], frames, case)
+        out = _expose(ctx, det, img1, frames, case)
+        kept = np.array(out, copy=True)
+        out2 = _expose(ctx, det, img2, frames, case)
+        require_kept(ctx, 'expose', out, kept, 'a second image was exposed')
+        # the same image once more: no state is carried from one exposure to the next
+        out3 = _expose(ctx, det, img1, frames, case)
+    require_unchanged(ctx, 'expose', names, args, snaps)
+    require_kept(ctx, 'expose', out, kept, 'two more images were exposed')
+    U.check_equal(np.asarray(out3), kept, 'expose:not-repeatable', 'the first image exposed again after a brighter one (noise sources off)')
     _check_container(ctx, out, case, frames, d['lut'])
     _check_container(ctx, out2, case, frames, d['lut'])
     lut = d['lut']
@@ -238,9 +403,13 @@ def check_noisy_range(case, ctx):
     _, _, v = _oracle_dn(d, case)
     _det_labels(case, ctx, d, v)
     frames, bits = case['frames'], case['bits']
-    det = _mk_detector(case, d, read_noise=case['gain'] * 3.0)
+    det, kw = _mk_detector(case, d, read_noise=case['gain'] * 3.0, ctx=ctx)
+    img1 = relayout(d['img'], case.get('layout', 'C'))
+    args = [img1, kw['prnu'], kw['dcnu'], kw['lut']]
+    snaps = snapshot(*args)
     with rng_proxy(np.random.RandomState(case['seed'] % (2 ** 32))):
-        out = _expose(ctx, det, d['img'].copy(), frames, case)
+        out = _expose(ctx, det, img1, frames, case)
+    require_unchanged(ctx, 'expose', ['aerial image', 'prnu map', 'dcnu map', 'lut'], args, snaps)
     _check_container(ctx, out, case, frames, d['lut'])
     o = np.asarray(out).astype(np.int64)
     top = 2 ** bits - 1
@@ -267,7 +436,7 @@ def check_noisy_range(case, ctx):
 
 def enum_ceiling(tier):
     for bits in range(1, 33):
-        for gain in (1.0, 0.37, 4.0):
+        for gain in (1.0, 0.37, 4.0, 0.7, 1.3, 7.9):
             for frames in (1, 2):
                 yield {'bits': bits, 'gain': gain, 'frames': frames}
 
@@ -305,11 +474,14 @@ def strat_bin(tier):
     hi = {'quick': 4, 'thorough': 6}[tier]
 
     def axes(nd):
-        return st.tuples(st.lists(st.integers(1, hi), min_size=nd, max_size=nd), st.lists(st.integers(1, 4), min_size=nd, max_size=nd))
+        # 1-D / 2-D arrays also take factors well beyond the ones the repository's tests use
+        f = st.integers(1, 4) if nd > 2 else st.one_of(st.integers(1, 4), st.integers(1, 4), st.sampled_from([5, 7, 8, 13, 16]))
+        return st.tuples(st.lists(st.integers(1, hi), min_size=nd, max_size=nd), st.lists(f, min_size=nd, max_size=nd))
     return st.integers(1, 4).flatmap(axes).flatmap(lambda of: st.fixed_dictionaries({
-        'out': st.just(of[0]), 'factor': st.just(of[1]), 'kind': st.sampled_from(['float', 'float', 'intfloat', 'int64', 'const', 'uint16', 'uint8', 'int32']),
+        'out': st.just(of[0]), 'factor': st.just(of[1]),
+        'kind': st.sampled_from(['float', 'float', 'float32', 'intfloat', 'int64', 'const', 'uint16', 'uint8', 'int32']),
         'scalar_factor': st.booleans(), 'avg_name': st.sampled_from(['avg', 'average', 'mean']),
-        'seq': st.sampled_from(['list', 'tuple']), 'seed': U.seeds}))
+        'seq': st.sampled_from(['list', 'tuple', 'ndarray']), 'layout': st.sampled_from(LAYOUTS), 'before': st.booleans(), 'seed': U.seeds}))
 
 
 def _ref_bindown_sum(x, factor):
@@ -337,12 +509,16 @@ def check_bin(case, ctx):
     allsame = len(set(factor)) == 1
     ctx.nt(nd != 2 or not allsame)
     ctx.label('ndim:%d' % nd, 'factors-equal' if allsame else 'factors-differ', 'kind:' + case['kind'],
-              'some-factor-1' if 1 in factor else 'all-factors>1')
+              'some-factor-1' if 1 in factor else 'all-factors>1', 'seq:' + case['seq'], 'layout:' + case.get('layout', 'C'),
+              'factor>4' if max(factor) > 4 else 'factors<=4')
     r = U.rng_of(case['seed'], 18)
     kind = case['kind']
     if kind == 'float':
         x = r.uniform(-1, 3, shape)
         y = r.uniform(-1, 3, out_shape)
+    elif kind == 'float32':
+        x = r.uniform(-1, 3, shape).astype(np.float32)
+        y = r.uniform(-1, 3, out_shape).astype(np.float32)
     elif kind == 'const':
         x = np.full(shape, 2.75)
         y = np.full(out_shape, -1.5)
@@ -354,30 +530,39 @@ def check_bin(case, ctx):
     else:
         x = r.integers(-50, 1000, shape).astype(np.float64 if kind == 'intfloat' else np.int64)
         y = r.integers(-50, 1000, out_shape).astype(np.float64 if kind == 'intfloat' else np.int64)
-    farg = (list(factor) if case['seq'] == 'list' else factor)
+    farg = (list(factor) if case['seq'] == 'list' else np.array(factor) if case['seq'] == 'ndarray' else factor)
     if allsame and case['scalar_factor']:
-        farg = int(factor[0])
+        farg = np.int64(factor[0]) if case['seq'] == 'ndarray' else int(factor[0])
         ctx.label('scalar-factor')
     nblock = int(np.prod(factor))
     exact = kind in ('intfloat', 'int64', 'uint16', 'uint8', 'int32')
+    # float32 data are reduced in float32 (pairwise sums of nblock terms): 2^-24 per operation, 64x head-room
+    ft = 1e-12 if kind != 'float32' else 64 * 2.0 ** -24 * max(1.0, np.log2(max(nblock, 2)))
     avg = case['avg_name']
-    xs = x.copy()
+    lay = case.get('layout', 'C')
+    if case.get('before', False):
+        # history inside the process: another rank / dtype / factor first
+        pre = r.uniform(0, 1, (6,) * (1 if nd > 1 else 2)).astype(np.float32 if kind != 'float32' else np.float64)
+        ctx.call(bindown, pre, 3 if nd > 1 else [2, 3], 'sum')
+        ctx.call(tile, pre, 2 if nd > 1 else (1, 2), avg)
+    xs, ys = relayout(x, lay), relayout(y, lay)
+    fsnap = snapshot(xs, ys, farg)
     bs = ctx.call(bindown, xs, farg, 'sum')
+    bs_kept = np.array(bs, copy=True)
     ba = ctx.call(bindown, xs, farg, avg)
-    ref = _ref_bindown_sum(x.astype(np.int64) if x.dtype.kind in 'iu' else x, factor)     # exact 64-bit reference for integer frames
+    ref = _ref_bindown_sum(x.astype(np.int64) if x.dtype.kind in 'iu' else x.astype(np.float64), factor)     # exact 64-bit reference for integer frames
     U.check_shape(bs, out_shape, 'bindown:sum')
     U.check_shape(ba, out_shape, 'bindown:avg')
     scale = float(np.max(np.abs(x))) * nblock
     if exact:
         U.check_equal(np.asarray(bs, dtype=np.float64), ref.astype(np.float64), 'bindown:sum', 'block sums of %s by %s' % (shape, factor))
     else:
-        U.check_close(bs, ref, 0, 'bindown:sum', 'block sums of %s by %s' % (shape, factor), atol=1e-12 * scale)
-    U.check_close(ba, ref / nblock, 0, 'bindown:avg', 'block means of %s by %s' % (shape, factor), atol=1e-12 * scale)
+        U.check_close(bs, ref, 0, 'bindown:sum', 'block sums of %s by %s' % (shape, factor), atol=ft * scale)
+    U.check_close(ba, ref / nblock, 0, 'bindown:avg', 'block means of %s by %s' % (shape, factor), atol=ft * scale)
     # totals (sum mode) and level (average mode)
-    U.check_close(np.sum(bs, dtype=np.float64), np.sum(x, dtype=np.float64), 0, 'bindown:total', 'sum mode must conserve the total', atol=1e-12 * scale * x.size)
-    U.check_close(np.mean(ba), np.mean(x), 0, 'bindown:level', 'average mode must conserve the mean level', atol=1e-12 * scale)
+    U.check_close(np.sum(bs, dtype=np.float64), np.sum(x, dtype=np.float64), 0, 'bindown:total', 'sum mode must conserve the total', atol=ft * scale * x.size)
+    U.check_close(np.mean(ba, dtype=np.float64), np.mean(x, dtype=np.float64), 0, 'bindown:level', 'average mode must conserve the mean level', atol=ft * scale)
     # tile
-    ys = y.copy()
     ta = ctx.call(tile, ys, farg, avg)
     ts = ctx.call(tile, ys, farg, 'sum')
     rep = _ref_tile(y, factor)
@@ -385,24 +570,31 @@ def check_bin(case, ctx):
     U.check_shape(ts, shape, 'tile:sum')
     U.check_equal(np.asarray(ta), rep, 'tile:avg', 'tile(avg) must repeat every sample over its block (%s by %s)' % (out_shape, factor))
     ys_scale = float(np.max(np.abs(y))) + 1e-300
-    U.check_close(ts, rep / nblock, 0, 'tile:sum', 'tile(sum) must spread every sample over its block', atol=1e-14 * ys_scale)
+    U.check_close(ts, rep / nblock, 0, 'tile:sum', 'tile(sum) must spread every sample over its block', atol=(ft if kind == 'float32' else 1e-14) * ys_scale)
     U.check_close(np.sum(ts, dtype=np.float64), np.sum(y, dtype=np.float64), 0, 'tile:total', 'tile(sum) must conserve the total',
-                  atol=1e-12 * ys_scale * y.size)
+                  atol=ft * ys_scale * y.size)
     # round trips
-    U.check_close(ctx.call(bindown, ta, farg, avg), y, 0, 'bindown(tile):avg', 'bindown(tile(y, avg), avg) != y', atol=1e-13 * ys_scale)
-    U.check_close(ctx.call(bindown, ts, farg, 'sum'), y, 0, 'bindown(tile):sum', 'bindown(tile(y, sum), sum) != y', atol=1e-12 * ys_scale)
+    U.check_close(ctx.call(bindown, ta, farg, avg), y, 0, 'bindown(tile):avg', 'bindown(tile(y, avg), avg) != y', atol=max(1e-13, ft) * ys_scale)
+    U.check_close(ctx.call(bindown, ts, farg, 'sum'), y, 0, 'bindown(tile):sum', 'bindown(tile(y, sum), sum) != y', atol=ft * ys_scale)
+    # the documented defaults: bindown(..., mode='avg'), tile(..., scaling='sum')
+    U.check_equal(np.asarray(ctx.call(bindown, xs, farg)), np.asarray(ba), 'bindown:default-mode', 'bindown(x, f) must be bindown(x, f, "avg")')
+    U.check_equal(np.asarray(ctx.call(tile, ys, farg)), np.asarray(ts), 'tile:default-scaling', 'tile(y, f) must be tile(y, f, "sum")')
+    # nothing that was handed in was changed, and the first result was not touched by the later calls
+    require_unchanged(ctx, 'bindown/tile', ['array handed to bindown', 'array handed to tile', 'factor'], [xs, ys, farg], fsnap)
+    require_kept(ctx, 'bindown', bs, bs_kept, 'bindown / tile were called %d more times' % 7)
     # adjoint pairs
     xf, yf = x.astype(np.float64), y.astype(np.float64)
     nrm = float(np.sqrt(np.sum(xf * xf)) * np.sqrt(np.sum(yf * yf))) * nblock + 1e-300
     l1, r1 = float(np.sum(np.asarray(ba, dtype=np.float64) * yf)), float(np.sum(xf * np.asarray(ts, dtype=np.float64)))
-    ctx.require(abs(l1 - r1) <= 1e-12 * nrm, 'adjoint:bindown-avg/tile-sum', '<bindown(x,avg),y> = %.15g but <x,tile(y,sum)> = %.15g (%s by %s)' % (l1, r1, shape, factor))
+    ctx.require(abs(l1 - r1) <= ft * nrm, 'adjoint:bindown-avg/tile-sum', '<bindown(x,avg),y> = %.15g but <x,tile(y,sum)> = %.15g (%s by %s)' % (l1, r1, shape, factor))
     l2, r2 = float(np.sum(np.asarray(bs, dtype=np.float64) * yf)), float(np.sum(xf * np.asarray(ta, dtype=np.float64)))
-    ctx.require(abs(l2 - r2) <= 1e-12 * nrm, 'adjoint:bindown-sum/tile-avg', '<bindown(x,sum),y> = %.15g but <x,tile(y,avg)> = %.15g (%s by %s)' % (l2, r2, shape, factor))
+    ctx.require(abs(l2 - r2) <= ft * nrm, 'adjoint:bindown-sum/tile-avg', '<bindown(x,sum),y> = %.15g but <x,tile(y,avg)> = %.15g (%s by %s)' % (l2, r2, shape, factor))
 
 
 # ---- Bayer -------------------------------------------------------------------------------------------
 CFAS = ['rggb', 'bggr']
-DTYPES = ['float64', 'float64', 'float32', 'uint16', 'int32']
+DTYPES = ['float64', 'float64', 'float32', 'uint16', 'int32', 'uint8', 'uint32', 'int64']
+VALUE_LEVELS = ['low', 'low', 'mid', 'top']
 
 
 def site_colours(shape, cfa):
@@ -418,14 +610,32 @@ def strat_bayer(tier):
     hi = {'quick': 8, 'thorough': 20}[tier]
     half = st.integers(1, hi)
     return st.fixed_dictionaries({'half': st.tuples(half, half).map(list), 'cfa': st.sampled_from(CFAS), 'dtype': st.sampled_from(DTYPES),
+                                  'level': st.sampled_from(VALUE_LEVELS), 'layout': st.sampled_from(LAYOUTS), 'before': st.booleans(),
                                   'seed': U.seeds, 'out_arg': st.booleans()})
 
 
-def _marker(shape, dtype, seed, salt):
-    """unique values in a seed-dependent order"""
+def _marker(shape, dtype, seed, salt, level='low', offset=0):
+    """values 1..n in a seed-dependent order (unique where the type is wide enough), placed at the bottom ('low'), in the
+    middle ('mid': just above 2^24, where float32 no longer holds every integer; floats: 1e-30 scale) or at the very top
+    ('top': the n largest values of an integer type; floats: near the largest finite values that leave room for the kernels)"""
     n = int(np.prod(shape))
-    perm = U.rng_of(seed, salt).permutation(n)
-    return (perm.reshape(shape) + 1).astype(dtype)
+    k = (U.rng_of(seed, salt).permutation(n).reshape(shape) + 1 + offset).astype(np.int64)
+    dt = np.dtype(dtype)
+    if dt.kind == 'f':
+        scale = {'low': 1.0, 'mid': 1e-30, 'top': 1e30 if dt == np.float32 else 1e300}[level]
+        return (k.astype(np.float64) * scale).astype(dt)
+    info = np.iinfo(dt)
+    span = int(info.max) + 1
+
+    def wrap(v):     # narrow types cannot hold n distinct values
+        return v % span if span < 2 ** 62 else v
+    if level == 'top':
+        v = int(info.max) - wrap(k - 1)
+    elif level == 'mid':
+        v = wrap(2 ** 24 + 1 + 257 * k) if info.bits >= 32 else wrap(int(info.max) // 2 + k)
+    else:
+        v = wrap(k)
+    return v.astype(dt)
 
 
 def check_bayer(case, ctx):
@@ -434,11 +644,19 @@ def check_bayer(case, ctx):
     hm, hn = case['half']
     m, n = 2 * hm, 2 * hn
     cfa, dt = case['cfa'], case['dtype']
+    level, lay = case.get('level', 'low'), case.get('layout', 'C')
     ctx.nt(m != n or cfa == 'bggr' or not dt.startswith('float'))
-    ctx.label('cfa:' + cfa, 'dtype:' + dt, 'square' if m == n else 'nonsquare', '2x2' if (m, n) == (2, 2) else 'larger')
-    img = _marker((m, n), dt, case['seed'], 19)
-    img0 = img.copy()
+    ctx.label('cfa:' + cfa, 'dtype:' + dt, 'square' if m == n else 'nonsquare', '2x2' if (m, n) == (2, 2) else 'larger',
+              'level:' + level, 'layout:' + lay)
+    if not dt.startswith('float') and np.iinfo(dt).bits >= 32 and level != 'low':
+        ctx.label('integer samples above 2^24')
+    img0 = _marker((m, n), dt, case['seed'], 19, level)
+    img = relayout(img0.copy(), lay)
+    isnap = snapshot(img)
     col = site_colours((m, n), cfa)
+
+    def untouched(fn):
+        require_unchanged(ctx, fn, ['mosaic'], [img], isnap)
     # decomposition
     planes = ctx.call(bayer.decomposite_bayer, img, cfa)
     ctx.require(len(planes) == 4, 'decomposite:len', 'decomposite_bayer must return r, g1, g2, b')
@@ -446,48 +664,73 @@ def check_bayer(case, ctx):
         U.check_shape(planes[k], (hm, hn), 'decomposite:' + name)
         want = img0[col == k].reshape(hm, hn)
         U.check_equal(np.asarray(planes[k]), want, 'decomposite:%s:%s' % (cfa, name), 'plane %s of a %dx%d %s mosaic' % (name, m, n, cfa))
+    untouched('decomposite_bayer')
     # recomposition of the planes, and of four independent planes
+    pl = [relayout(np.array(p, copy=True), lay) for p in planes]
+    psnap = snapshot(*pl)
     if case['out_arg']:
-        buf = np.zeros((m, n), dtype=dt)
-        rec = ctx.call(bayer.recomposite_bayer, *[p.copy() for p in planes], cfa=cfa, output=buf)
+        buf = relayout(np.zeros((m, n), dtype=dt), lay)
+        rec = ctx.call(bayer.recomposite_bayer, *pl, cfa=cfa, output=buf)
     else:
-        rec = ctx.call(bayer.recomposite_bayer, *[p.copy() for p in planes], cfa=cfa)
+        rec = ctx.call(bayer.recomposite_bayer, *pl, cfa=cfa)
     U.check_equal(np.asarray(rec), img0, 'recomposite(decomposite):' + cfa, 'recomposite(decomposite(img)) != img')
-    ind = [_marker((hm, hn), dt, case['seed'], 20 + k) + (1000 * k if dt != 'uint16' else 0) for k in range(4)]
+    require_unchanged(ctx, 'recomposite_bayer', ['r plane', 'g1 plane', 'g2 plane', 'b plane'], pl, psnap)
+    rec_kept = np.array(rec, copy=True)
+    ind0 = [_marker((hm, hn), dt, case['seed'], 20 + k, level, offset=1000 * k) for k in range(4)]
+    ind = [relayout(p.copy(), lay) for p in ind0]
     rec2 = np.asarray(ctx.call(bayer.recomposite_bayer, *ind, cfa=cfa))
     U.check_shape(rec2, (m, n), 'recomposite')
     for k, name in enumerate(('r', 'g1', 'g2', 'b')):
-        U.check_equal(rec2[col == k].reshape(hm, hn), ind[k], 'recomposite:%s:%s' % (cfa, name), 'plane %s must land on its own sites' % name)
+        U.check_equal(rec2[col == k].reshape(hm, hn), ind0[k], 'recomposite:%s:%s' % (cfa, name), 'plane %s must land on its own sites' % name)
+    if not case['out_arg']:
+        require_kept(ctx, 'recomposite_bayer', rec, rec_kept, 'four other planes of the same shape were recomposited')
     # composite: dense planes, each picked at its own sites
-    dense = [_marker((m, n), dt, case['seed'], 30 + k) for k in range(4)]
+    dense0 = [_marker((m, n), dt, case['seed'], 30 + k, level) for k in range(4)]
+    dense = [relayout(p.copy(), lay) for p in dense0]
+    dsnap = snapshot(*dense)
     if case['out_arg']:
-        comp = np.asarray(ctx.call(bayer.composite_bayer, *dense, cfa=cfa, output=np.zeros((m, n), dtype=dt)))
+        comp = np.asarray(ctx.call(bayer.composite_bayer, *dense, cfa=cfa, output=relayout(np.zeros((m, n), dtype=dt), lay)))
     else:
         comp = np.asarray(ctx.call(bayer.composite_bayer, *dense, cfa=cfa))
     U.check_shape(comp, (m, n), 'composite')
     for k, name in enumerate(('r', 'g1', 'g2', 'b')):
-        U.check_equal(comp[col == k], dense[k][col == k], 'composite:%s:%s' % (cfa, name), 'composite must take plane %s at the %s sites' % (name, name))
+        U.check_equal(comp[col == k], dense0[k][col == k], 'composite:%s:%s' % (cfa, name), 'composite must take plane %s at the %s sites' % (name, name))
+    require_unchanged(ctx, 'composite_bayer', ['r plane', 'g1 plane', 'g2 plane', 'b plane'], dense, dsnap)
     # demosaicking keeps native samples
     chan = np.array([0, 1, 1, 2])[col]          # colour channel (R, G, B) native to each site
-    rgb = np.asarray(ctx.call(bayer.demosaic_malvar, img.copy(), cfa))
+    if case.get('before', False):
+        # history inside the process: a mosaic of the same shape in another dtype first
+        other_dt = 'float32' if dt != 'float32' else 'uint16'
+        ctx.call(bayer.demosaic_malvar, _marker((m, n), other_dt, case['seed'], 41), 'bggr' if cfa == 'rggb' else 'rggb')
+    rgb = np.asarray(ctx.call(bayer.demosaic_malvar, img, cfa))
+    rgb_kept = np.array(rgb, copy=True)
+    untouched('demosaic_malvar')
     U.check_shape(rgb, (m, n, 3), 'demosaic_malvar')
     native = np.take_along_axis(rgb, chan[..., None], axis=2)[..., 0]
-    if not np.array_equal(native, img0):
+    if native.dtype != img0.dtype or not np.array_equal(native, img0):
         bad = native != img0
-        i = tuple(int(k) for k in np.argwhere(bad)[0])
+        i = tuple(int(k) for k in np.argwhere(bad)[0]) if bad.any() else (0, 0)
         ctx.fail('demosaic_malvar:%s:native-%s' % (cfa, ('r', 'g1', 'g2', 'b')[col[i]]),
-                 'site %s (%s of %s): raw %r, demosaicked %s channel %r; %d sites changed' % (
-                     i, ('r', 'g1', 'g2', 'b')[col[i]], cfa, img0[i], 'RGB'[chan[i]], native[i], int(bad.sum())))
+                 'site %s (%s of %s): raw %r (%s), demosaicked %s channel %r (%s); %d sites changed' % (
+                     i, ('r', 'g1', 'g2', 'b')[col[i]], cfa, img0[i], img0.dtype, 'RGB'[chan[i]], native[i], native.dtype, int(bad.sum())))
     # the other layout swaps R and B (metamorphic)
-    other = np.asarray(ctx.call(bayer.demosaic_malvar, img.copy(), 'bggr' if cfa == 'rggb' else 'rggb'))
+    other = np.asarray(ctx.call(bayer.demosaic_malvar, img, 'bggr' if cfa == 'rggb' else 'rggb'))
+    # a second mosaic of the same shape and dtype: the first result is the caller's and stays what it was
+    img_b = relayout(_marker((m, n), dt, case['seed'], 42, level), lay)
+    rgb_b = np.asarray(ctx.call(bayer.demosaic_malvar, img_b, cfa))
+    require_kept(ctx, 'demosaic_malvar', rgb, rgb_kept, 'two more mosaics of the same shape were demosaicked')
+    nat_b = np.take_along_axis(rgb_b, chan[..., None], axis=2)[..., 0]
+    U.check_equal(nat_b, np.asarray(img_b), 'demosaic_malvar:%s:native:second-mosaic' % cfa, 'second mosaic of the same shape: native samples')
     U.check_equal(other[..., ::-1], rgb, 'demosaic_malvar:layout-swap', 'rggb and bggr results must be each other with R and B exchanged')
     # unit-sum kernels: a flat field stays flat (float data only; integer containers truncate)
     if dt.startswith('float'):
-        flat = np.full((m, n), 7.25, dtype=dt)
+        fv = 7.25 * {'low': 1.0, 'mid': 1e-30, 'top': 1e30 if dt == 'float32' else 1e300}[level]
+        flat = relayout(np.full((m, n), fv, dtype=dt), lay)
         frgb = np.asarray(ctx.call(bayer.demosaic_malvar, flat, cfa))
-        U.check_close(frgb, np.full((m, n, 3), 7.25), 1e-12 if dt == 'float64' else 1e-5, 'demosaic_malvar:flat-field', 'flat field must stay flat')
+        U.check_close(frgb, np.full((m, n, 3), float(flat[0, 0])), 1e-12 if dt == 'float64' else 1e-5, 'demosaic_malvar:flat-field', 'flat field must stay flat')
     # deinterlace
-    di = np.asarray(ctx.call(bayer.demosaic_deinterlace, img.copy(), cfa))
+    di = np.asarray(ctx.call(bayer.demosaic_deinterlace, img, cfa))
+    untouched('demosaic_deinterlace')
     U.check_shape(di, (hm, hn, 3), 'demosaic_deinterlace')
     U.check_equal(di[..., 0].astype(np.float64), img0[col == 0].reshape(hm, hn).astype(np.float64), 'demosaic_deinterlace:%s:r' % cfa, 'R plane')
     U.check_equal(di[..., 2].astype(np.float64), img0[col == 3].reshape(hm, hn).astype(np.float64), 'demosaic_deinterlace:%s:b' % cfa, 'B plane')
@@ -501,8 +744,10 @@ def strat_wb(tier):
     gain = st.sampled_from([1.0, 0.5, 2.0, 1.7, 3.25, 0.1])
     sat = st.sampled_from([0.05, 0.5, 2.0, 9.0, 100.0])
     return st.fixed_dictionaries({'half': st.tuples(half, half).map(list), 'cfa': st.sampled_from(CFAS), 'dtype': st.sampled_from(['float64', 'float32']),
-                                  'gains': st.tuples(gain, gain, gain, gain).map(list), 'safe': st.booleans(),
-                                  'sat': st.one_of(sat, st.tuples(sat, sat, sat, sat).map(list)), 'seed': U.seeds})
+                                  'gains': st.tuples(gain, gain, gain, gain).map(list), 'safe': st.sampled_from([False, True, True]),
+                                  'sat': st.one_of(sat, st.tuples(sat, sat, sat, sat).map(list)), 'seed': U.seeds,
+                                  'gform': st.sampled_from(FORMS), 'satseq': st.sampled_from(['list', 'tuple', 'ndarray', 'np64']),
+                                  'layout': st.sampled_from(LAYOUTS)})
 
 
 def _common_ratio(ctx, ratios, who):
@@ -521,14 +766,26 @@ def check_wb(case, ctx):
     cfa, dt, safe, sat = case['cfa'], case['dtype'], case['safe'], case['sat']
     wr, wg1, wg2, wb = case['gains']
     ctx.nt(safe or cfa == 'bggr')
-    ctx.label('cfa:' + cfa, 'safe' if safe else 'plain', 'sat:list' if isinstance(sat, list) else 'sat:scalar', 'dtype:' + dt)
+    gform, satseq, lay = case.get('gform', 'float'), case.get('satseq', 'list'), case.get('layout', 'C')
+    ctx.label('cfa:' + cfa, 'safe' if safe else 'plain', 'sat:list' if isinstance(sat, list) else 'sat:scalar', 'dtype:' + dt,
+              'gform:' + gform, 'satseq:' + satseq, 'layout:' + lay)
     r = U.rng_of(case['seed'], 40)
     mosaic0 = r.uniform(0.1, 10.0, (m, n)).astype(dt)
     col = site_colours((m, n), cfa)
     g_by_col = np.array([wr, wg1, wg2, wb])
-    mosaic = mosaic0.copy()
-    kw = {'safe': True, 'saturation': (list(sat) if isinstance(sat, list) else sat)} if safe else {}
-    ctx.call(bayer.wb_prescale, mosaic, wr, wg1, wg2, wb, cfa, **kw)
+    mosaic = relayout(mosaic0.copy(), lay)
+
+    def sat_arg(v):
+        """per-channel levels as list | tuple | ndarray; a common level as Python float | numpy scalar"""
+        if isinstance(v, list):
+            return {'tuple': tuple(v), 'ndarray': np.array(v, dtype=np.float64)}.get(satseq, list(v))
+        return np.float64(v) if satseq == 'np64' else v
+    gains = [scalar_form(g, gform) for g in (wr, wg1, wg2, wb)]
+    sarg = sat_arg(sat)
+    asnap = snapshot(sarg, *gains)
+    kw = {'safe': True, 'saturation': sarg} if safe else {}
+    ctx.call(bayer.wb_prescale, mosaic, *gains, cfa, **kw)
+    require_unchanged(ctx, 'wb_prescale', ['saturation', 'wr', 'wg1', 'wg2', 'wb'], [sarg] + gains, asnap)
     rt = 1e-6 if dt == 'float32' else 1e-13
     applied = mosaic.astype(np.float64) / mosaic0.astype(np.float64)
     if not safe:
@@ -543,10 +800,13 @@ def check_wb(case, ctx):
         ctx.label('ratio>1' if max(per) > 1 + 1e-6 else 'ratio=1')
     # post scale on a trichromatic image
     rgb0 = r.uniform(0.1, 10.0, (m, n, 3)).astype(dt)
-    rgb = rgb0.copy()
-    sat3 = (list(sat[:3]) if isinstance(sat, list) else sat)
+    rgb = relayout(rgb0.copy(), lay)
+    sat3 = sat_arg(list(sat[:3]) if isinstance(sat, list) else sat)
+    g3a = [gains[0], gains[1], gains[3]]
+    asnap = snapshot(sat3, *g3a)
     kw = {'safe': True, 'saturation': sat3} if safe else {}
-    ctx.call(bayer.wb_postscale, rgb, wr, wg1, wb, **kw)
+    ctx.call(bayer.wb_postscale, rgb, *g3a, **kw)
+    require_unchanged(ctx, 'wb_postscale', ['saturation', 'wr', 'wg', 'wb'], [sat3] + g3a, asnap)
     g3 = np.array([wr, wg1, wb])
     if not safe:
         U.check_close(rgb, rgb0.astype(np.float64) * g3, rt, 'wb_postscale', 'every colour plane times its gain')
@@ -562,9 +822,9 @@ def check_wb(case, ctx):
 
 CLAUSES = [
     EnumClause('adc_ceiling_all_bits', enum_ceiling, check_ceiling, shards={'quick': 2, 'thorough': 2}),
-    HypClause('expose_noise_free', strat_detector, check_noise_free, examples={'quick': 400, 'thorough': 3000}, shards={'quick': 3, 'thorough': 6}),
+    HypClause('expose_noise_free', strat_detector, check_noise_free, examples={'quick': 600, 'thorough': 3000}, shards={'quick': 3, 'thorough': 6}),
     HypClause('expose_noisy_range', strat_detector, check_noisy_range, examples={'quick': 300, 'thorough': 2000}, shards={'quick': 2, 'thorough': 4}),
-    HypClause('bindown_tile', strat_bin, check_bin, examples={'quick': 400, 'thorough': 3000}, shards={'quick': 2, 'thorough': 4}),
-    HypClause('bayer_sites', strat_bayer, check_bayer, examples={'quick': 300, 'thorough': 2000}, shards={'quick': 2, 'thorough': 4}),
-    HypClause('white_balance', strat_wb, check_wb, examples={'quick': 300, 'thorough': 2000}, shards={'quick': 1, 'thorough': 2}),
+    HypClause('bindown_tile', strat_bin, check_bin, examples={'quick': 600, 'thorough': 3000}, shards={'quick': 2, 'thorough': 4}),
+    HypClause('bayer_sites', strat_bayer, check_bayer, examples={'quick': 500, 'thorough': 2000}, shards={'quick': 2, 'thorough': 4}),
+    HypClause('white_balance', strat_wb, check_wb, examples={'quick': 300, 'thorough': 2000}, shards={'quick': 2, 'thorough': 2}),
 ]
